@@ -408,8 +408,18 @@ func (g *fgen) opArg(op string, d bson.D, path string, depth int) interface{} {
 			return pick(r, []interface{}{nil, int32(1), "a", bson.D{}, bson.D{{Key: "a", Value: int32(1)}}})
 		}
 		n := r.intn(4)
+		if r.chance(1, 8) {
+			// long candidate lists (implementations may switch strategy with the length)
+			n = 8 + r.intn(10)
+		}
 		a := bson.A{}
 		for i := 0; i < n; i++ {
+			if n > 4 && r.chance(1, 2) {
+				// distinct small numbers in varying numeric types so that the match, if any,
+				// is often through a candidate of another numeric type than the stored value
+				a = append(a, reNumber(r, float64(i), int64(i), true))
+				continue
+			}
 			a = append(a, g.operand(d, path))
 		}
 		return a
